@@ -144,10 +144,7 @@ func (c *Ctx) familyPairing() {
 				}
 			}
 			return false
-		}, Goal: func(i ssa.Instruction) bool {
-			ret, ok := i.(*ssa.Return)
-			return ok && !c.isErrorExit(ret)
-		}, Prune: func(from, to *ssa.BasicBlock) bool {
+		}, GoalP: c.nonErrorReturn, Prune: func(from, to *ssa.BasicBlock) bool {
 			// the edge on which this family has no store configured
 			f, ok := EdgeFact(from, to)
 			if !ok {
